@@ -31,6 +31,7 @@ type c18 struct {
 	inst      map[uint64]*cxInst
 	pruned    uint64
 	bases     map[uint64]*gpbft.TipSet
+	past      map[uint64][]*gpbft.ECChain // chains admitted earlier, per instance (for re-broadcasts)
 	notified  int
 }
 
@@ -191,7 +192,7 @@ func (s *c18) remote(k uint64, ch *gpbft.ECChain, ts int64, raw []byte, what str
 
 func runC18(prop, tier string, c *kernel.Chooser, r *kernel.Recorder) *kernel.Violation {
 	e := &env{c: c, r: r, prop: prop}
-	s := &c18{env: e, inst: map[uint64]*cxInst{}, bases: map[uint64]*gpbft.TipSet{}}
+	s := &c18{env: e, inst: map[uint64]*cxInst{}, bases: map[uint64]*gpbft.TipSet{}, past: map[uint64][]*gpbft.ECChain{}}
 	s.clk = clock.NewMock()
 	s.clk.Set(time.Date(2024, 1, 1, 0, 0, 0, 0, time.UTC))
 	s.lookahead = uint64(c.Intn(5))
@@ -241,16 +242,29 @@ func runC18(prop, tier string, c *kernel.Chooser, r *kernel.Recorder) *kernel.Vi
 				s.remote(k, ch, now-int64(c.Intn(int(s.maxAge.Milliseconds())+1)), nil, "valid", true)
 				r.Probe("asked_then_received")
 			}
-		case 1: // valid remote broadcast (receive then maybe ask)
+		case 1: // valid remote broadcast (receive then maybe ask); sometimes a re-broadcast of an earlier chain
 			n := 1 + c.Intn(8)
 			if c.Chance(50) {
 				n = gpbft.ChainMaxLen
 			}
 			ch := s.chain(k, n, tag, false)
+			if old := s.past[k]; len(old) > 0 && c.Chance(300) {
+				ch = old[c.Intn(len(old))]
+				n = ch.Len()
+				r.Probe("rebroadcast_of_earlier_chain")
+			} else if len(s.past[k]) < 16 {
+				s.past[k] = append(s.past[k], ch)
+			}
 			if !s.remote(k, ch, now-int64(c.Intn(int(s.maxAge.Milliseconds())+1)), nil, "valid", true) {
 				break
 			}
-			if n <= s.capD && c.Chance(600) {
+			if n <= s.capD && c.Chance(250) {
+				// ask for the full chain only (it becomes wanted, its prefixes stay unsolicited)
+				if !s.at(k).overflow && !s.lookup(k, ch, "after admission") {
+					s.fail("admitted_chain_not_retrievable", "admission", "chain of %d tipsets admitted for instance %d is not retrievable right after admission (discovered capacity %d)", n, k, s.capD)
+				}
+				r.Probe("asked_full_chain_only")
+			} else if n <= s.capD && c.Chance(700) {
 				// right after an admission that fits the capacity every prefix is retrievable
 				for _, p := range prefixes(ch) {
 					if s.at(k).overflow {
@@ -358,6 +372,15 @@ func runC18(prop, tier string, c *kernel.Chooser, r *kernel.Recorder) *kernel.Vi
 					}
 				}
 			}
+			// a chain admitted just now at the boundary instance, never asked for: pruning below i
+			// must leave it alone
+			var keep *gpbft.ECChain
+			if i >= s.progress.ID && i <= s.progress.ID+s.lookahead && !s.at(i).overflow {
+				cand := s.chain(i, 2+c.Intn(min(3, s.capD-1)+0), tag+"-keep", false)
+				if cand.Len() <= s.capD && s.remote(i, cand, now, nil, "valid", true) {
+					keep = cand
+				}
+			}
 			if err := s.cx.RemoveChainsByInstance(bg, i); err != nil {
 				s.fail("prune_failed", "prune", "RemoveChainsByInstance(%d) failed: %v", i, err)
 				break
@@ -369,6 +392,19 @@ func runC18(prop, tier string, c *kernel.Chooser, r *kernel.Recorder) *kernel.Vi
 				}
 			}
 			r.Probe("prune")
+			for kk := range s.past {
+				if kk < i {
+					delete(s.past, kk)
+				}
+			}
+			if keep != nil && s.viol == nil {
+				for _, p := range prefixes(keep) {
+					if !s.lookup(i, p, "after prune") {
+						s.fail("prune_removed_live_instance", "prune", "pruning below %d removed a chain (prefix of %d tipsets) admitted for instance %d itself", i, p.Len(), i)
+						break
+					}
+				}
+			}
 			if probe != nil {
 				if _, ok := s.cx.GetChainByInstance(bg, probeK, probe.Key()); ok {
 					s.fail("pruned_chain_retrievable", "prune", "after pruning below %d a chain of instance %d is still retrievable", i, probeK)
